@@ -282,6 +282,20 @@ def reference_model(rep, rec, path):
                     rep.add('nontrivial')
 
 
+def wrap_model(rep, rec, path):
+    name = os.path.basename(path)
+    found, bad, n = P.wrap_discipline(path)
+    if not found:
+        rep.sections.setdefault('no_wrap_function', []).append(name)
+        return
+    rep.add('evaluations', n)
+    rep.add('nontrivial', n)
+    for line, calls in bad:
+        rec('wrap:%s' % name, '%s: wrap() returns a Function that was initialised %d times '
+            '(exactly one init, which takes the library reference, is expected)' % (name, calls),
+            dict(file=name, function='wrap', line=line))
+
+
 def analyse(which=None):
     rep = run.Report()
     rec = sweep.Rec(rep)
@@ -298,6 +312,7 @@ def analyse(which=None):
             continue
         operator_model(rep, rec, path, U, m, refs, den)
         reference_model(rep, rec, path)
+        wrap_model(rep, rec, path)
     return rep, n
 
 
